@@ -759,6 +759,97 @@ def n29_select_biased(pieces, file, applied):
     applied.add("N29", file, line0, "futures_util::select_biased! { arms } -> match select_biased_choice() { arms }")
 
 
+def n30_alt(pieces, file, applied):
+    """N30: winnow `alt((P1, P2, .. Pn)).parse_next(input)` -> nested matches that try each alternative from the same
+    start: `{ let alt_checkpoint = *input; match P1 { Ok(v) => Ok(M1), Err(_) => { *input = alt_checkpoint; match P2 {..
+    .. match Pn { Ok(v) => Ok(Mn), Err(e) => Err(e) } .. } } } }`.  Transcribed from winnow 0.7's `alt` for tuples
+    (ASSUMED): an alternative that fails with a backtrack error leaves no trace (input rewound) except the LAST one,
+    whose error - and cursor - are the result.  An alternative is `p` (a parser fn: `p(input)`), `p.map(F)`,
+    `literal("s")` / `literal("s").map(F)` (-> `expect_lit_bytes(input, <bytes of s>)`, N24); `F` is a path
+    (`Type::Custom` -> `Type::Custom(v)`) or a closure `|_| VALUE` (-> `VALUE`)."""
+    count = 0
+    while True:
+        ms = find_pattern(pieces, "alt(($BLOCKALTS)).parse_next(input)")
+        if not ms:
+            break
+        (k, e, caps, si) = ms[0]
+        a, b = caps["BLOCKALTS"]
+        alts = []
+        d = 0
+        start = a
+        for j in range(a, b):
+            t = pieces[si[j]]
+            if t.tkind == "punct" and t.text in OPEN:
+                d += 1
+            elif t.tkind == "punct" and t.text in CLOSE:
+                d -= 1
+            elif d == 0 and t.text == ",":
+                if j > start:
+                    alts.append((start, j))
+                start = j + 1
+        if b > start:
+            alts.append((start, b))
+        if len(alts) < 2:
+            raise ExtractError("N30: alt with fewer than two alternatives")
+        def txt(x, y):
+            return "".join(pieces[i].text for i in range(si[x], si[y - 1] + 1) if not pieces[i].dead)
+        arms = []
+        for (x, y) in alts:
+            toks = [pieces[si[j]].text for j in range(x, y)]
+            # split off a trailing `.map(F)`
+            mapper = None
+            if len(toks) >= 5 and toks[-1] == ")" and "map" in toks:
+                # find the last top-level `.map(`
+                dd = 0
+                pos = None
+                for j in range(len(toks) - 1, -1, -1):
+                    if toks[j] in CLOSE:
+                        dd += 1
+                    elif toks[j] in OPEN:
+                        dd -= 1
+                        if dd == 0 and j >= 2 and toks[j - 1] == "map" and toks[j - 2] == "." and j + 1 < len(toks):
+                            pos = j
+                            break
+                if pos is not None:
+                    mapper = toks[pos + 1:-1]
+                    toks = toks[:pos - 2]
+            if len(toks) == 1 and re.match(r"^[A-Za-z_][A-Za-z0-9_]*$", toks[0]):
+                call = f"{toks[0]}(input)"
+            elif len(toks) == 4 and toks[0] == "literal" and toks[1] == "(" and toks[3] == ")" and toks[2].startswith('"') and "\\" not in toks[2]:
+                bs = toks[2][1:-1].encode("utf-8")
+                call = "expect_lit_bytes(input, &[" + ", ".join(f"0x{c:02x}u8" for c in bs) + "])"
+            else:
+                raise ExtractError(f"N30: unsupported alternative `{' '.join(toks)}`")
+            if mapper is None:
+                val = "v"
+            elif mapper[0] == "|":
+                # closure `|_| VALUE` or `|x| EXPR` (only the ignoring form is supported)
+                if mapper[:3] != ["|", "_", "|"]:
+                    raise ExtractError(f"N30: unsupported map closure `{' '.join(mapper)}`")
+                val = "".join(mapper[3:])
+            else:
+                val = "".join(mapper) + "(v)"
+            arms.append((call, val))
+        out = "{ let alt_checkpoint = *input; "
+        closes = ""
+        for n, (call, val) in enumerate(arms):
+            last = n == len(arms) - 1
+            if last:
+                out += f"match {call} {{ Ok(v) => Ok({val}), Err(e) => Err(e) }}"
+            else:
+                out += f"match {call} {{ Ok(v) => Ok({val}), Err(_) => {{ *input = alt_checkpoint; "
+                closes += " } }"
+        out += closes + " }"
+        line = pieces[si[k]].line
+        kill(pieces, range(si[k], si[e - 1] + 1))
+        newp = [Piece(t.text, "rw", line, rule="N30", tkind=t.kind) for t in lex(out)]
+        pieces[si[k]:si[k] + 1] = newp
+        applied.add("N30", file, line, f"alt over {len(arms)} alternatives -> try each from the same start, the last one's failure is the result")
+        count += 1
+    if count == 0:
+        raise ExtractError("N30: no `alt((..)).parse_next(input)` found")
+
+
 def n12_break_value(pieces, name, file, applied):
     """`let NAME = loop { .. break E .. };` -> `let __brk; loop { .. { __brk = E; break; } .. } let NAME = __brk;`"""
     si = sig(pieces)
@@ -1208,6 +1299,9 @@ class Generator:
                         elif d == "n29":
                             opts["n29"] = True
                             cur = None
+                        elif d == "n30":
+                            opts["n30"] = True
+                            cur = None
                         elif d == "trusted":
                             opts["trusted"] = True
                             cur = None
@@ -1327,6 +1421,8 @@ class Generator:
             n19_byte_strings(pieces, file, self.applied)
         if opts.get("n29"):
             n29_select_biased(pieces, file, self.applied)
+        if opts.get("n30"):
+            n30_alt(pieces, file, self.applied)
         for (rule, pat, rep, count) in opts["rewrites"]:
             apply_rewrite(pieces, rule, pat, rep, count, file, self.applied)
         if opts.get("n5"):
